@@ -577,6 +577,7 @@ func Run(c *fw.Ctx) {
 	c.Parallel(n, func(i int) { runCase(c, i) })
 	c.Parallel(c.N(300, 16000), func(i int) { runHTMLCase(c, i) })
 	c.Parallel(c.N(300, 12000), func(i int) { runOfficeCase(c, i) })
+	c.Parallel(c.N(150, 4000), func(i int) { runPDFCase(c, i) })
 	fixedCases(c)
 	if c.Only == "" && c.Evaluations() < int64(n) {
 		c.Inconclusive("fewer cases executed than planned")
